@@ -23,6 +23,7 @@ import (
 	"fmt"
 	"log"
 	"net/http"
+	"sync"
 	"time"
 
 	"context"
@@ -63,6 +64,12 @@ type Connection struct {
 	serverMessages  chan *message
 	protocolVersion int
 	subprotocol     string
+
+	// closeMu serializes Close with senders on the clientMessages channel
+	// (and with other calls to Close), so that nothing is ever sent on, or
+	// closes, an already closed channel.
+	closeMu sync.Mutex
+	closed  bool
 }
 
 // This map defines the set of headers that should be stripped from the WS request, as they
@@ -169,9 +176,20 @@ func NewConnection(ctx context.Context, targetURL string, header http.Header, er
 
 // Close closes the websocket client connection.
 func (conn *Connection) Close() {
-	conn.clientMessages <- &message{
+	conn.closeMu.Lock()
+	defer conn.closeMu.Unlock()
+	if conn.closed {
+		return
+	}
+	conn.closed = true
+	select {
+	case conn.clientMessages <- &message{
 		websocket.CloseMessage,
 		websocket.FormatCloseMessage(websocket.CloseNormalClosure, ""),
+	}:
+	case <-conn.done():
+		// The connection has already been torn down, so there is
+		// nobody left to forward the close message to.
 	}
 	// Closing the writing routine.
 	close(conn.clientMessages)
@@ -218,11 +236,20 @@ func (conn *Connection) SendClientMessage(msg interface{}, injectionEnabled bool
 			clientMessage = injectedMsg
 		}
 	}
+	conn.closeMu.Lock()
+	defer conn.closeMu.Unlock()
+	if conn.closed {
+		return fmt.Errorf("attempt to send a client message on a closed websocket connection")
+	}
 	select {
 	case <-conn.done():
 		return fmt.Errorf("attempt to send a client message on a closed websocket connection")
 	default:
-		conn.clientMessages <- clientMessage
+	}
+	select {
+	case <-conn.done():
+		return fmt.Errorf("attempt to send a client message on a closed websocket connection")
+	case conn.clientMessages <- clientMessage:
 	}
 	return nil
 }
